@@ -169,6 +169,9 @@ type c07Case struct {
 	// arrives with the last record) or "abort" (reset after the server
 	// consumed the prefix)
 	Fault string `json:"fault"`
+	// LogoutErr: the backend's Logout reports an error (a legal return value
+	// that changes nothing: there is nobody to tell)
+	LogoutErr bool `json:"logout_err,omitempty"`
 }
 
 type cutObs struct {
